@@ -71,7 +71,7 @@ def run(ctx, rep):
         "faces built by the Edgebreaker decoder from vertex ids it generates itself (no stream label: covered only by its own corner-table invariants)"]
     rep.trusted_base += ["clang 14 AST/CFG", "dfacts", "rules/sources.json"]
     f = run_rule(ctx, rep, "FACEIDX", S.faceidx_sinks, tab.get("allow", {}))
-    check_controls(rep, "FACEIDX", f, ["face_bad"], ["face_ok"])
+    check_controls(rep, "FACEIDX", f, ["face_bad", "face_wrap_bad"], ["face_ok"])
     rep.floor("FACEIDX stores in Reach(decode)", len([o for o in f if not o.control]),
               tab["faceidx_floor"])
 
